@@ -1,5 +1,6 @@
 import GormModel.Drv.Util
 import GormModel.Model.Where
+import GormModel.Gen.GuardWhereFacts
 open Lean
 namespace Gorm.Drv
 namespace HC02
@@ -173,7 +174,7 @@ def handleC02 (op : String) (args : Array Json) : Option Json := do
     some (Json.mkObj [
       ("sql", Json.str (textFlat flat)),
       ("vals", Json.arr (envs.map (fun e => v3J (sqlEval e flat))).toArray),
-      ("missing", Json.bool (missingWhere false st)),
+      ("missing", Json.bool (missingWhere Gen.guardRejectsEmptyWhere false st)),
       ("sound", Json.bool (whereSound (st.exprs.getD []))),
       ("mixedNot", Json.bool (anyMixedNot (st.exprs.getD []))),
       ("nexprs", natJ (st.exprs.getD []).length)])
@@ -189,7 +190,7 @@ def handleC02 (op : String) (args : Array Json) : Option Json := do
       | v => (parseAtom v).map some
     let ag ← jBool? (arg args 5)
     let after := (jBool? (arg args 6)).getD false   -- an earlier condition-free query ran on the same statement
-    some (Json.bool (missingWhere ag (if after then guardStateAfterQuery ch pk soft un else guardState ch pk soft un)))
+    some (Json.bool (missingWhere Gen.guardRejectsEmptyWhere ag (if after then guardStateAfterQuery ch pk soft un else guardState ch pk soft un)))
   | "stmt.run" =>
     -- ["stmt.run", softFilter|null, [modelKey atoms], allowGlobal, [ops]] -> state after every op (+ guard decision)
     let soft ← match arg args 1 with
@@ -201,7 +202,7 @@ def handleC02 (op : String) (args : Array Json) : Option Json := do
     let cfg : StmtCfg := { soft := soft, modelKey := mk, allowGlobal := ag }
     let (_, out) := ops.foldl (fun (acc : StmtState × Array Json) op =>
       let rej := match op with
-        | .fin k vk same => finRejected cfg acc.1 k vk same
+        | .fin k vk same => finRejected Gen.guardRejectsEmptyWhere cfg acc.1 k vk same
         | _ => false
       let s' := stmtStep cfg acc.1 op
       (s', acc.2.push (stateJ s' rej))) (StmtState.fresh, #[])
